@@ -106,7 +106,7 @@ impl<'a> Visitor for RenumVisitor<'a> {
                 self.line(ln1);
                 self.line(ln2);
             }
-            OnGoto(_, _, ve) => {
+            OnGoto(_, _, ve) | OnGosub(_, _, ve) => {
                 for ln in ve {
                     self.line(ln);
                 }
